@@ -39,6 +39,14 @@ def run(chk, repo):
     chk.doc("R16.4", "message fits the mailbox")
     chk.doc("R16.5", "responses are checked before they are used")
     chk.doc("R16.7", "mailbox primitives use their own direction")
+    chk.doc("R16.9", "mailbox state is per master / per terminal, and "
+                     "comes from the terminal's live configuration")
+    per_instance_rule(chk, repo, "R16.9", ["ebpfcat.ethercat.EtherCat",
+                                           "ebpfcat.ethercat.Terminal",
+                                           "ebpfcat.lock.MailboxLock"],
+                      "mailbox locks and counters of one bus are used for "
+                      "another bus' terminals of the same address")
+    live_geometry(chk, repo)
     taint(chk, repo)
     segments(chk, repo)
     accumulator(chk, repo)
@@ -54,6 +62,43 @@ def run(chk, repo):
                      "to its last response (shared with C15)")
     chk.doc("R15.2", "see R15.1")
     c15.lock_graph(chk, repo)
+
+
+def live_geometry(chk, repo):
+    """a terminal that is joined without being re-initialised
+    (gentle_initialize) is configured by somebody else: its mailbox offsets
+    and sizes are what its sync-manager registers say now, not the EEPROM
+    defaults"""
+    sym = "ebpfcat.ethercat.Terminal.gentle_initialize"
+    f = repo.func(sym)
+    chk.analysed(sym)
+    cfg = CFG(f, raises="await")
+    rd = ReachingDefs(cfg)
+    ps = [(n, c) for n in cfg.nodes if n.expr is not None
+          for c, b in find("self.parse_sync_managers($d)", n.expr)]
+    ok = bool(ps)
+    why = "no parse_sync_managers() call"
+    for n, c in ps:
+        a = c.args[0]
+        src = []
+        if isinstance(a, ast.Name):
+            for dd in rd.reaching(n, a.id):
+                src.append(dd.value if isinstance(dd.value, ast.AST)
+                           else None)
+        else:
+            src.append(a)
+        for v in src:
+            if isinstance(v, ast.Await):
+                v = v.value
+            if v is None or match("self.read(2048, data=128)", v) is None \
+                    and match("self.read(2048, $*a, $**)", v) is None:
+                ok = False
+                why = (f"parses `{unparse(v)[:50] if v is not None else '?'}`"
+                       f": the mailbox geometry of a terminal somebody else "
+                       f"configured is not necessarily the EEPROM default")
+    chk.ob("R16.9", sym, "the sync managers parsed are the registers read "
+           "from the terminal (0x800..)", ok, ps[0][1] if ps else f,
+           why if not ok else "sm = await self.read(0x800, data=0x80)")
 
 
 def addressed(chk, repo):
